@@ -348,7 +348,14 @@ def pick_rank(rs, algo, data):
         return [int(rs.randint(1, min(s, 3) + 1)) for s in shp]
     if algo == "tr_als":
         n = len(data["shape"])
-        r = [int(rs.randint(1, 3)) for _ in range(n)]
+        # bond ranks 1-3, deliberately including ranks a neighbouring core cannot carry (rank-deficient design matrices)
+        r = [int(rs.randint(1, 4 if rs.rand() < 0.4 else 3)) for _ in range(n)]
+        if rs.rand() < 0.25:
+            # a bond larger than its neighbour can carry: r[k] > shape[k-1] * r[k-1]
+            k = int(rs.randint(1, n))
+            if data["shape"][k - 1] <= 3:
+                r[k - 1] = 1
+                r[k] = data["shape"][k - 1] + 1
         return r + [r[0]]
     if algo == "parafac2":
         K = data["slices"][0].shape[1]
